@@ -49,6 +49,7 @@ def shards(tier):
             out.append(("part24", hb, hb + 4))
     out.append(("eq",))
     out.append(("sizes",))
+    out.append(("sameframe",))
     for order in HIST_ORDERS:
         out.append(("hist", order))
     out.append(("threads",))
@@ -325,6 +326,64 @@ def run_shard(shard):
         res["distinct"].add(("eq", "pairs"))
         res["distinct"].add(("eq", "inst-pairs"))
         sample(res, {"eq_pairs": len(objs) ** 2, "instance_pairs": len(inst) ** 2})
+    elif k == "sameframe":
+        # ONE frame object written and read over and over: every read reflects the bits the frame holds NOW (a frame is
+        # mutable; nothing may be remembered per frame object)
+        n = 0
+        for v0 in (0x000000, 0xFFFFFF, 0x01A5C3):
+            f = FF(24, v0)
+            for b in list(range(256)) + [0xFE, 0x00, 0xFF, 0x45, 0x00]:
+                f[15:8] = b
+                got = A.instance_from_frame(f)
+                n += 1
+                if got is None or R.lib_instance(got) != R.instance_kind(b):
+                    add_violation(res, "C04:same-frame:instance-read-stale", f"one 24-bit frame object: instance byte set to {b:#04x} (raw slice write), "
+                                  f"instance_from_frame gives {got}, the byte denotes {R.instance_kind(b)}", {"t": "sameframe"})
+                    break
+            f = FF(24, v0)
+            seq = INST + INST[::-1] + INST[::7]
+            for desc in seq:
+                obj = R.lib_mkinstance(desc)
+                A.instance_from_frame(f)                      # read BEFORE the write as well
+                obj.add_to_frame(f)
+                got = A.instance_from_frame(f)
+                n += 1
+                if got is None or R.lib_instance(got) != desc or not (got == obj):
+                    add_violation(res, "C04:same-frame:instance-read-stale", f"one 24-bit frame object: {desc} written after other instances, read back {got} "
+                                  f"(frame {f.as_integer:#08x})", {"t": "sameframe"})
+                    break
+            f = FF(24, v0 | 0x010000)
+            for desc in DEV + DEV[::-1] + DEV[::5]:
+                obj = R.lib_mkaddr(desc, "device")
+                A.from_frame(f)
+                obj.add_to_frame(f)
+                got = A.from_frame(f)
+                n += 1
+                if not _same_addr(got, desc, "device") or not (got == obj):
+                    add_violation(res, "C04:same-frame:address-read-stale", f"one 24-bit frame object: {desc} written after other addresses, read back {got}", {"t": "sameframe"})
+                    break
+            f = FF(16, v0 & 0xFFFF)
+            for desc in GEAR + GEAR[::-1] + GEAR[::5]:
+                obj = R.lib_mkaddr(desc, "gear")
+                A.from_frame(f)
+                obj.add_to_frame(f)
+                got = A.from_frame(f)
+                n += 1
+                if not _same_addr(got, desc, "gear") or not (got == obj):
+                    add_violation(res, "C04:same-frame:address-read-stale", f"one 16-bit frame object: {desc} written after other addresses, read back {got}", {"t": "sameframe"})
+                    break
+            for a7 in list(range(128)) * 2:
+                f[15:9] = a7
+                got = A.from_frame(f)
+                n += 1
+                want = R.gear_addr(a7)
+                if (got is None) != (want is None) or (want is not None and not _same_addr(got, want, "gear")):
+                    add_violation(res, "C04:same-frame:address-read-stale", f"one 16-bit frame object: address bits set to {a7:#04x}, from_frame gives {got}, the bits denote {want}",
+                                  {"t": "sameframe"})
+                    break
+        res["evaluations"] += n
+        res["distinct"].add(("sameframe", "ok"))
+        sample(res, {"same_frame_object_rewritten": n})
     elif k == "sizes":
         reps_g = [("short", 0), ("short", 63), ("group", 0), ("group", 15), ("broadcast",), ("unaddressed",)]
         reps_d = [("short", 0), ("short", 63), ("group", 0), ("group", 31), ("broadcast",), ("unaddressed",)]
@@ -372,6 +431,8 @@ def replay(case):
     t = case["t"]
     if t == "threads":
         return run_shard(("threads",))["violations"]
+    if t == "sameframe":
+        return run_shard(("sameframe",))["violations"]
     if ":after:" in t:
         order = tuple(t.split(":after:")[1].split(">"))
         return run_shard(("hist", order))["violations"]
